@@ -12,6 +12,14 @@ CHECKS = {
    text="Generated search (rapid) over trees x claimed positions x path/size mutations with three oracles: differential against a reference written from the statement, tree-occupancy soundness, completeness; plus a bounded exhaustive enumeration of all small trees. Exploration is the right level: the function is pure and cheap, so hundreds of thousands of structured cases plus a complete small scope give strong evidence; no proof is attempted.",
    note="crypto/sha256 is trusted; the reference fold and the occupancy map are 15-line functions in the harness",
    tech="property-based testing (rapid): differential vs reference model + tree-occupancy oracle; bounded exhaustive enumeration"),
+ "C03": dict(cat="exploration",
+   text="Generated search over bridge parameter sets, registered keys, model Bitcoin blocks (tree sizes 1..33, deposit at any position incl. coinbase, depth 0..129 below the voted tip, v0/v1, boundary values) whose hashes are voted through genesis, and deposit attempts mutated one field at a time (19 mutation kinds) - decided by a deposit oracle computed from the model (accept / reject / unspecified), plus receipt identity (amount+tax=value, integer tax formula, tax<value), second-credit rejection and HasDeposited; a second property runs histories of multi-item batches as real transactions with several batches per block and restarts and compares every deposit system transaction later handed to the execution layer with the model's credited list (each once, in order). Exploration: the space is a product of layouts, positions, proofs and parameters; constructing each class reaches the logic that random bytes would not.",
+   note="Bitcoin output values are restricted to [0, 21e14]; mirror positions of a duplicated last Merkle leaf are unspecified; a 100% tax rate is refused by genesis since fix a5d926e (such cases are then vacuous and counted as config-rejected-by-genesis)",
+   tech="property-based testing (rapid): mutation catalogue vs model-derived deposit oracle; stateful batch histories vs credited-set model"),
+ "C17": dict(cat="exploration",
+   text="Round trip handout -> independent Bech32/Bech32m decoder -> script compared with a script derived from the specification -> verifier, with exclusivity checks (other key, one-bit-different EVM address, other magic, other key type, other version) for every key type x version x network; withdrawal addresses are produced by independent Base58Check/Bech32/Bech32m encoders for all standard types and networks and must decode to exactly the template script, while pay-to-pubkey strings, other-prefix addresses and mutated strings must be rejected. Exploration over random keys/addresses with a differential oracle is the natural level for codec agreement.",
+   note="the independent codecs in harness/props/addr_test.go are trusted (written from BIP-173/350 and Base58Check); testnet3/signet/regtest share base58 prefixes, so 'foreign' means prefix inequality; non-standard witness programs are unspecified",
+   tech="property-based testing (rapid): generator<->verifier round trip and differential against independent address codecs"),
 }
 NA_REASON = "check not built yet in this round (planned, see DESIGN.md §5); not a statement that the technique cannot apply"
 m = {
